@@ -63,7 +63,7 @@ def tasks(tier):
                 ts.append({"name": f"setup:rt={rt or 'skip'}:left={left}:right={right}", "fn": "t_setup",
                            "args": {"rt": rt, "left": left, "right": right, "model": 0, "pre": "", "wcp": left},
                            "witnesses": ["setup-done"]})
-    for mi in range(1, 6):
+    for mi in range(1, 5):
         ts.append({"name": f"setup:model{mi}", "fn": "t_setup",
                    "args": {"rt": "", "left": False, "right": False, "model": mi, "pre": "1,3", "wcp": True},
                    "witnesses": ["setup-done"]})
